@@ -190,6 +190,91 @@ Theorem never_panics_E8_asis_refuted :
 Proof. split; vm_compute; reflexivity. Qed.
 Print Assumptions never_panics_E8_asis_refuted.
 
+(* ---------- E7: SD-JWT helpers (sdjwt/common) ---------- *)
+Theorem never_panics_E7 : forall (d : option (list json)) (claims : list (string * json)) s,
+  to_res (E7_disclosure d) <> Panic s /\ to_res (E7_cnf claims) <> Panic s.
+Proof.
+  intros d c s. split.
+  - exact (safe_no_panic _ (E7_disclosure_safe d) s).
+  - exact (safe_no_panic _ (E7_cnf_safe c) s).
+Qed.
+Print Assumptions never_panics_E7.
+Theorem terminates_E7 : forall (d : option (list json)) (claims : list (string * json)),
+  to_res (E7_disclosure d) <> Diverge /\ to_res (E7_cnf claims) <> Diverge /\
+  is_ok (E7_digests claims) || is_err (E7_digests claims) = true.
+Proof.
+  intros d c. split; [exact (safe_no_diverge _ (E7_disclosure_safe d))|].
+  split; [exact (safe_no_diverge _ (E7_cnf_safe c))|exact (E7_digests_total c)].
+Qed.
+Print Assumptions terminates_E7.
+Example E7_examples :
+  E7_disclosure (Some [JStr "salt"; JStr "name"; JNum 1]) = GPass /\
+  E7_disclosure (Some [JStr "salt"]) = GRej 71 /\ E7_disclosure (Some [JNum 1; JNull]) = GRej 72 /\
+  E7_disclosure (Some [JStr "s"; JNum 1; JNull]) = GRej 73 /\
+  E7_digests [("_sd", JArr [JStr "a"]); ("n", JArr [JObj [("...", JStr "b")]; JObj [("...", JNum 1)]; JStr "x"])]
+    = Ok ["a"; "b"]%string /\
+  E7_digests [("_sd", JArr [JNum 1])] = Err EInvalid /\
+  E7_cnf [("vc", JObj [("cnf", JObj [])])] = GPass /\ E7_cnf [("cnf", JNull)] = GRej 77.
+Proof. repeat split; vm_compute; reflexivity. Qed.
+
+(* ---------- E9: connection protocol handlers, introduce, pack side ---------- *)
+Theorem never_panics_E9 : forall has_did keys thread found did_ok public attach rec_keys sig verify_ok
+    conv pack typed s,
+  to_res (E9_invitation_key Fixed has_did keys) <> Panic s /\
+  to_res (E9_thread thread found) <> Panic s /\
+  to_res (E9_attachment did_ok public attach) <> Panic s /\
+  to_res (E9_legacy_response Fixed rec_keys sig verify_ok) <> Panic s /\
+  to_res (E9_convert_keys Fixed conv) <> Panic s /\
+  to_res (E9_pack_keys Fixed pack) <> Panic s /\
+  to_res (E9_meta_recipients Fixed typed) <> Panic s.
+Proof.
+  intros. repeat split.
+  - exact (safe_no_panic _ (E9_invitation_key_safe has_did keys) s).
+  - exact (safe_no_panic _ (E9_thread_safe thread found) s).
+  - exact (safe_no_panic _ (E9_attachment_safe did_ok public attach) s).
+  - exact (safe_no_panic _ (E9_legacy_response_safe rec_keys sig verify_ok) s).
+  - exact (safe_no_panic _ (E9_convert_keys_safe conv) s).
+  - exact (safe_no_panic _ (E9_pack_keys_safe pack) s).
+  - exact (safe_no_panic _ (E9_meta_recipients_safe typed) s).
+Qed.
+Print Assumptions never_panics_E9.
+Theorem terminates_E9 : forall has_did keys rec_keys sig verify_ok conv pack typed,
+  to_res (E9_invitation_key Fixed has_did keys) <> Diverge /\
+  to_res (E9_legacy_response Fixed rec_keys sig verify_ok) <> Diverge /\
+  to_res (E9_convert_keys Fixed conv) <> Diverge /\
+  to_res (E9_pack_keys Fixed pack) <> Diverge /\
+  to_res (E9_meta_recipients Fixed typed) <> Diverge.
+Proof.
+  intros. repeat split.
+  - exact (safe_no_diverge _ (E9_invitation_key_safe has_did keys)).
+  - exact (safe_no_diverge _ (E9_legacy_response_safe rec_keys sig verify_ok)).
+  - exact (safe_no_diverge _ (E9_convert_keys_safe conv)).
+  - exact (safe_no_diverge _ (E9_pack_keys_safe pack)).
+  - exact (safe_no_diverge _ (E9_meta_recipients_safe typed)).
+Qed.
+Print Assumptions terminates_E9.
+(* the code as found: an invitation without recipient keys; a legacy response without connection~sig once the
+   request is out; a legacy request whose IndyAgent service key has a non-ASCII rune; a legacy invitation key with a
+   non-ASCII rune reaching PackMessage; a repeated introduce request (recipients reloaded from the store) *)
+Theorem never_panics_E9_asis_refuted :
+  E9_invitation_key AsIs false [] = GPanic 94 /\
+  E9_legacy_response AsIs [(false, true)] None true = GPanic 96 /\
+  E9_convert_keys AsIs [(false, false, false, false)] = GPanic 90 /\
+  E9_pack_keys AsIs [false] = GPanic 89 /\
+  E9_meta_recipients AsIs [false; false] = GPanic 88.
+Proof. repeat split; vm_compute; reflexivity. Qed.
+Print Assumptions never_panics_E9_asis_refuted.
+Example E9_fixed :
+  E9_invitation_key Fixed false [] = GRej 94 /\ E9_invitation_key Fixed false ["k"%string] = GPass /\
+  E9_legacy_response Fixed [(false, true)] None true = GRej 96 /\
+  E9_legacy_response Fixed [(false, true)]
+    (Some {| sv_data_ok := true; sv_data_len := 10; sv_sig_ok := true |}) true = GPass /\
+  E9_legacy_response Fixed [(false, true)]
+    (Some {| sv_data_ok := true; sv_data_len := 8; sv_sig_ok := true |}) true = GRej 99 /\
+  E9_thread None true = GRej 91 /\ E9_thread (Some "t"%string) true = GPass /\
+  E9_attachment true false None = GRej 92.
+Proof. repeat split; vm_compute; reflexivity. Qed.
+
 (* ---------- the correspondence check decides what it should ---------- *)
 (* a case in which the implementation panicked or timed out never passes the check *)
 Theorem check_rejects_crashes : forall i, check_case {| c_in := i; c_obs := OPanic |} = false /\
